@@ -247,9 +247,9 @@ theorem struct_meets_spec (c : Case) (hwf : wf c = true) (hk : known c = []) : s
   have hmh : (model c).hookCalls = hookCalls c := rfl
   unfold spec
   simp only [Bool.and_eq_true]
-  refine ⟨⟨⟨⟨⟨⟨⟨⟨⟨⟨⟨⟨⟨⟨⟨⟨⟨⟨⟨⟨spec_keys c hb, spec_slotCount c hn hl⟩, ?_⟩, ?_⟩, ?_⟩, spec_setUnknown c⟩, rfl⟩,
+  refine ⟨⟨⟨⟨⟨⟨⟨⟨⟨⟨⟨⟨⟨⟨⟨⟨⟨⟨⟨⟨⟨spec_keys c hb, spec_slotCount c hn hl⟩, ?_⟩, ?_⟩, ?_⟩, spec_setUnknown c⟩, rfl⟩,
     spec_demanded c hb⟩, calls_all_new c hb hw⟩, spec_cells c hw⟩, hcached.1.1.1⟩, hcached.1.1.2⟩,
-    hcached.1.2⟩, hcached.2⟩, ?_⟩, ?_⟩, ?_⟩, ?_⟩, ?_⟩, ?_⟩, ?_⟩
+    hcached.1.2⟩, hcached.2⟩, ?_⟩, ?_⟩, ?_⟩, ?_⟩, ?_⟩, ?_⟩, ?_⟩, ?_⟩
   · have : (model c).hasDict = instHasDict c := rfl
     rw [this, hasDict_iff c hn hb]; simp
   · have : (model c).weakrefable = instWeakrefable c := rfl
@@ -274,6 +274,7 @@ theorem struct_meets_spec (c : Case) (hwf : wf c = true) (hk : known c = []) : s
     | false =>
       simp only [Bool.false_eq_true, if_false, Bool.false_or]
       exact spec_demanded c hb
+  · rfl
   · rfl
 
 end Attrs.C08
